@@ -42,9 +42,11 @@ let predict (regs : freg list option) (probes : Sx.t list) : Sx.t list =
       let compile _ = None in
       let st = ref rinit and ok = ref true in
       List.iter (fun r ->
-        if !ok then match register compile !st (methods_idx r.fr_method) (route_of_path r.fr_path) with
-          | Some st' -> st := st'
-          | None -> ok := false) regs;
+        if !ok then match methods_idx r.fr_method with
+          | [] -> ok := false                        (* unknown HTTP method: the registration panics *)
+          | ms -> (match register compile !st ms (route_of_path r.fr_path) with
+                   | Some st' -> st := st'
+                   | None -> ok := false)) regs;
       if not !ok then [Sx.L [Sx.A "regs"; Sx.L [Sx.A "panic"]]]
       else
         let res = List.map (fun pr -> match Sx.args pr with
